@@ -10,52 +10,47 @@
 /// Result of validating: Ok(()) or Err((valid_up_to, error_len)) where error_len None means
 /// "unexpected end of input".
 pub fn validate(b: &[u8]) -> Result<(), (usize, Option<u8>)> {
+    // A byte-at-a-time automaton whose loop index advances by exactly one per iteration, so
+    // that CBMC unrolls it `b.len()` times even for symbolic contents (an index that jumps by
+    // the symbolic character width would be unrolled up to the unwind bound).
     let n = b.len();
+    let mut need: u8 = 0; // continuation bytes still expected
+    let mut seen: u8 = 0; // bytes of the current sequence consumed so far (incl. lead)
+    let mut lo: u8 = 0x80; // admissible range of the next continuation byte (Table 3-7)
+    let mut hi: u8 = 0xBF;
+    let mut start: usize = 0; // index of the current sequence's lead byte
     let mut i = 0usize;
     while i < n {
         let c = b[i];
-        if c < 0x80 {
-            i += 1;
-            continue;
-        }
-        // (width, lower/upper bound of the second byte) per Table 3-7
-        let (w, lo, hi): (usize, u8, u8) = match c {
-            0xC2..=0xDF => (2, 0x80, 0xBF),
-            0xE0 => (3, 0xA0, 0xBF),
-            0xE1..=0xEC => (3, 0x80, 0xBF),
-            0xED => (3, 0x80, 0x9F),
-            0xEE..=0xEF => (3, 0x80, 0xBF),
-            0xF0 => (4, 0x90, 0xBF),
-            0xF1..=0xF3 => (4, 0x80, 0xBF),
-            0xF4 => (4, 0x80, 0x8F),
-            _ => return Err((i, Some(1))),
-        };
-        if i + 1 >= n {
-            return Err((i, None));
-        }
-        let b1 = b[i + 1];
-        if b1 < lo || b1 > hi {
-            return Err((i, Some(1)));
-        }
-        if w >= 3 {
-            if i + 2 >= n {
-                return Err((i, None));
+        if need == 0 {
+            start = i;
+            if c >= 0x80 {
+                seen = 1;
+                match c {
+                    0xC2..=0xDF => { need = 1; lo = 0x80; hi = 0xBF; }
+                    0xE0 => { need = 2; lo = 0xA0; hi = 0xBF; }
+                    0xE1..=0xEC => { need = 2; lo = 0x80; hi = 0xBF; }
+                    0xED => { need = 2; lo = 0x80; hi = 0x9F; }
+                    0xEE..=0xEF => { need = 2; lo = 0x80; hi = 0xBF; }
+                    0xF0 => { need = 3; lo = 0x90; hi = 0xBF; }
+                    0xF1..=0xF3 => { need = 3; lo = 0x80; hi = 0xBF; }
+                    0xF4 => { need = 3; lo = 0x80; hi = 0x8F; }
+                    _ => return Err((i, Some(1))),
+                }
             }
-            let b2 = b[i + 2];
-            if b2 < 0x80 || b2 > 0xBF {
-                return Err((i, Some(2)));
+        } else {
+            if c < lo || c > hi {
+                return Err((start, Some(seen)));
             }
+            need -= 1;
+            seen += 1;
+            lo = 0x80;
+            hi = 0xBF;
         }
-        if w == 4 {
-            if i + 3 >= n {
-                return Err((i, None));
-            }
-            let b3 = b[i + 3];
-            if b3 < 0x80 || b3 > 0xBF {
-                return Err((i, Some(3)));
-            }
-        }
-        i += w;
+        i += 1;
+    }
+    if need != 0 {
+        return Err((start, None));
     }
     Ok(())
 }
@@ -99,4 +94,14 @@ pub fn from_utf8_ref(v: &[u8]) -> Result<&str, core::str::Utf8Error> {
             Err(unsafe { core::mem::transmute::<Utf8ErrorLayout, core::str::Utf8Error>(raw) })
         }
     }
+}
+
+/// Kani stub for `core::str::from_utf8` for harnesses whose inputs are *well-formed by
+/// assumption* (properties about well-formed messages): instead of branching on validity it
+/// assumes it, so the returned `&str` keeps the constant pointer/length of its argument
+/// (a `Result` with a symbolic discriminant loses that at the join and every loop over the
+/// text is then unrolled to the unwind bound).  Restricts the harness to valid UTF-8 inputs.
+pub fn from_utf8_assume_valid(v: &[u8]) -> Result<&str, core::str::Utf8Error> {
+    kani::assume(is_valid(v));
+    Ok(unsafe { core::str::from_utf8_unchecked(v) })
 }
